@@ -695,7 +695,7 @@ impl SendObs {
 /// A different request on this thread whose connection breaks while the request is being written: whatever that
 /// failure leaves behind on the thread (buffers, caches) is no part of the next request (seed C08-seed10: a
 /// per-thread write buffer that is not cleared on the error path).
-fn break_a_request_on_this_thread() {
+pub fn break_a_request_on_this_thread() {
     verif_hooks::set_dial_factory(Box::new(|_info| {
         crate::script::set_write_fail_after(Some(37));
         let (script, _log) = Script::new(vec![]);
@@ -868,8 +868,13 @@ pub fn run_send(case: &SendCase) -> SendObs {
             }
             for (name, data, filename, mime) in files {
                 let mut f = attohttpc::MultipartFile::new(name, data);
-                if let Some(fname) = filename {
-                    f = f.with_filename(fname);
+                // the two builder calls commute: the type first and the file name second in every other file
+                // (seed C15-seed12: a type guessed from the file name replaces the one set before)
+                let type_first = (name.len() + data.len()) % 2 == 0;
+                if !type_first {
+                    if let Some(fname) = filename {
+                        f = f.with_filename(fname);
+                    }
                 }
                 if let Some(m) = mime {
                     f = match f.with_type(m) {
@@ -879,6 +884,11 @@ pub fn run_send(case: &SendCase) -> SendObs {
                             return obs;
                         }
                     };
+                }
+                if type_first {
+                    if let Some(fname) = filename {
+                        f = f.with_filename(fname);
+                    }
                 }
                 mb = mb.with_file(f);
             }
